@@ -112,6 +112,20 @@ func (s *fileSim) Blocked(what string) {
 // Coin: cooperative fault point; drawn from the run's PRNG (replay: recorded answers in order).
 func (s *fileSim) Coin(kind string) bool {
 	s.coins++
+	if kind == "clock-jump" && s.Mode != "replay" {
+		// rare: one read in 64 finds the clock a minute later
+		if s.Mode == "identity" {
+			return false
+		}
+		if s.coinRng == nil {
+			s.coinRng = NewRNG(Mix(s.seed, 0xc01))
+		}
+		v := s.coinRng.U64()&63 == 0
+		if v {
+			s.CoinLog = append(s.CoinLog, s.coins)
+		}
+		return v
+	}
 	if s.Mode == "replay" {
 		if s.replayCoins[s.coins] {
 			s.CoinLog = append(s.CoinLog, s.coins)
